@@ -147,23 +147,74 @@ def generate_one(name):
             raise RuntimeError("translator disagrees with dialect.ref(%r) in %s" % (n, name))
     ident = name.replace("-", "_")
     lines = ["(* GENERATED by harness/gen_dialects.py from dialect %r -- do not edit *)" % name,
-             "From SF Require Import Base.Prelude Model.DialectGraph Proofs.DialectGraphP.", "",
-             "Definition g_%s : graph := [" % ident]
-    def cN(l):
-        return "[" + ";".join(str(x) for x in l) + "]%N" if l else "(@nil N)"
-    lines.append(";\n".join("  (%d%%N, %s)" % (idx[n], cN([idx[s] for s in graph[n]])) for n in sorted(graph, key=lambda x: idx[x])))
-    lines.append("].")
+             "From Coq Require Import String.",
+             "From SF Require Import Base.Prelude Base.Decode Model.DialectGraph Proofs.DialectGraphP Model.LexTable.",
+             "Local Open Scope string_scope.", ""]
+
+    def enc_list(l):
+        return ",".join(str(x) for x in l)
+
+    # chunked on entry boundaries: a very long string literal overflows coqc's stack
+    entries = ["%d;%s" % (idx[n], enc_list(idx[s] for s in graph[n])) for n in sorted(graph, key=lambda x: idx[x])]
+    chunks, cur = [], []
+    for e in entries:
+        if cur and sum(len(x) + 1 for x in cur) + len(e) > 3000:
+            chunks.append(cur)
+            cur = []
+        cur.append(e)
+    if cur:
+        chunks.append(cur)
+    for ci, ch in enumerate(chunks):
+        lines.append('Definition g_src_%s_%d : string := "%s".' % (ident, ci, "|".join(ch)))
+    lines.append("Definition g_%s : graph := Eval vm_compute in as_graph (%s)." % (
+        ident, " ++ ".join("decode g_src_%s_%d" % (ident, ci) for ci in range(len(chunks))) or "[]"))
     lines.append("Definition root_%s : N := %d%%N." % (ident, idx[root]))
-    lines.append("Definition visited_%s : list N := %s." % (ident, cN(sorted(idx[n] for n in reach))))
-    lines.append("Definition dangling_%s : list N := %s." % (ident, cN(sorted(idx[n] for n in dangling))))
+    vis = sorted(idx[n] for n in reach)
+    vchunks = [vis[i:i + 500] for i in range(0, len(vis), 500)]
+    lines.append('Definition visited_%s : list N := Eval vm_compute in (%s).' % (
+        ident, " ++ ".join('as_list (decode "%s")' % enc_list(c) for c in vchunks) or "[]"))
+    lines.append('Definition dangling_%s : list N := %s.' % (
+        ident, "(@nil N)" if not dangling else 'Eval vm_compute in as_list (decode "%s")' % enc_list(sorted(idx[n] for n in dangling))))
+    lines.append("(* the decoder saw what the translator wrote: entry and edge counts *)")
+    lines.append("Theorem shape_%s : (N.of_nat (length g_%s), N.of_nat (sum_nat (map (fun e => length (snd e)) g_%s)), N.of_nat (length visited_%s)) = (%d, %d, %d)%%N." % (
+        ident, ident, ident, ident, len(graph), sum(len(v) for v in graph.values()), len(reach)))
+    lines.append("Proof. vm_compute. reflexivity. Qed.")
     lines.append("(* every name reachable from the root is in visited_, and each has a library entry or is listed in dangling_ *)")
-    lines.append("Theorem closed_%s : closed_check g_%s root_%s visited_%s dangling_%s = true." % (ident, ident, ident, ident, ident))
+    lines.append("Theorem closed_%s : closed_check_fast g_%s root_%s visited_%s dangling_%s = true." % (ident, ident, ident, ident, ident))
+    lines.append("Proof. vm_compute. reflexivity. Qed.")
+    # lexer matcher table (name, regex/string template) in matching order + the last-resort matcher of PyLexer
+    from sqlfluff.core.parser.lexer import PyLexer, RegexLexer, StringLexer
+    matchers = d.get_lexer_matchers()
+    tbl = []
+    for m in matchers:
+        if not isinstance(m, StringLexer) or not isinstance(m.template, str):
+            raise RuntimeError("unexpected lexer matcher %r in %s" % (m, name))
+        tbl.append((m.name, ("R" if isinstance(m, RegexLexer) else "S"), m.template))
+    lx = PyLexer(dialect=name)
+    if [m.name for m in lx.lexer_matchers] != [m.name for m in matchers]:
+        raise RuntimeError("PyLexer does not use the dialect's matcher table in %s" % name)
+    last = lx.last_resort_lexer
+    if not isinstance(last, RegexLexer):
+        raise RuntimeError("last-resort matcher is not a RegexLexer")
+    def enc_text(t):
+        return ",".join(str(ord(c)) for c in t)
+
+    lines.append('Definition lexers_%s : table := Eval vm_compute in as_pairs (decode "%s").' % (
+        ident, "|".join("%s;%s" % (enc_text(n), enc_text(t if k == "R" else "S:" + t)) for (n, k, t) in tbl)))
+    lines.append('Definition last_resort_%s : text := Eval vm_compute in as_list (decode "%s").' % (ident, enc_text(last.template)))
+    lines.append("Theorem lexer_ok_%s : table_ok lexers_%s last_resort_%s = true." % (ident, ident, ident))
     lines.append("Proof. vm_compute. reflexivity. Qed.")
     lines.append("(* visited: %d library entries, %d reachable names, %d grammar nodes walked, %d edges *)" % (
         len(graph), len(reach), visited, sum(len(v) for v in graph.values())))
     coq.write_if_changed(os.path.join(coq.COQ, "generated", "Gen_dialect_%s.v" % ident), "\n".join(lines) + "\n")
-    return {"dialect": name, "entries": len(graph), "reachable": len(reach), "edges": sum(len(v) for v in graph.values()),
+    return {"dialect": name, "lexer_matchers": len(tbl), "last_resort": last.template, "entries": len(graph), "reachable": len(reach), "edges": sum(len(v) for v in graph.values()),
             "grammar_nodes": visited, "dangling": [(n, path_to(parent, root, n)) for n in dangling]}
+
+
+def conj_term(ts):
+    if len(ts) == 1:
+        return ts[0]
+    return "(conj %s %s)" % (ts[0], conj_term(ts[1:]))
 
 
 def dialect_names():
@@ -179,6 +230,27 @@ def generate(ctx=None):
             out[name] = generate_one(name)
         except Exception as e:  # a dialect that does not load / translate is reported by the check
             failures[name] = "%s: %s" % (type(e).__name__, e)
+    # one file stating the property for all bundled dialects at once (fails to compile when any dialect has a dangling reference)
+    idents = [n.replace("-", "_") for n in sorted(out)]
+    L = ["(* GENERATED by harness/gen_dialects.py -- do not edit *)",
+         "From SF Require Import Base.Prelude Model.DialectGraph Proofs.DialectGraphP Model.LexTable Proofs.LexTableP."]
+    L += ["From SFGen Require Import Gen_dialect_%s." % i for i in idents]
+    L.append("Definition bundled_dialects : nat := %d." % len(idents))
+    any_dangling = any(v["dangling"] for v in out.values())
+    # always stated: every reachable reference resolves or is one of the names listed (by id) in dangling_<d>
+    L.append("Theorem all_bundled_dialects_closed_up_to_listed :")
+    L.append("  " + "\n  /\\ ".join("(forall n, path g_%s root_%s n -> entry g_%s n <> None \\/ In n dangling_%s)" % (i, i, i, i) for i in idents) + ".")
+    L.append("Proof. exact %s. Qed." % conj_term(["(closed_fast_up_to_listed _ _ _ _ closed_%s)" % i for i in idents]))
+    L.append("Definition listed_dangling_total : nat := %s." % " + ".join("length dangling_%s" % i for i in idents))
+    if not any_dangling:
+        # the property itself, stated only when it holds (otherwise the harness reports each (dialect, name) pair)
+        L.append("Theorem all_bundled_dialects_complete :")
+        L.append("  " + "\n  /\\ ".join("(forall n, path g_%s root_%s n -> entry g_%s n <> None)" % (i, i, i) for i in idents) + ".")
+        L.append("Proof. exact %s. Qed." % conj_term(["(closed_fast_no_dangling _ _ _ closed_%s)" % i for i in idents]))
+    L.append("Theorem all_bundled_lexers_total :")
+    L.append("  " + "\n  /\\ ".join("table_ok lexers_%s last_resort_%s = true" % (i, i) for i in idents) + ".")
+    L.append("Proof. exact %s. Qed." % conj_term(["lexer_ok_%s" % i for i in idents]))
+    coq.write_if_changed(os.path.join(coq.COQ, "generated", "Gen_dialects_all.v"), "\n".join(L) + "\n")
     if ctx is not None:
         ctx.coverage_extra["translator_gen_dialects"] = {k: {kk: vv for kk, vv in v.items() if kk != "dangling"} for k, v in out.items()}
         ctx.dialect_dump = out
